@@ -15,6 +15,7 @@ RULE = (
     "Hypothesis draws (kernel x resampler x clustering x metric mode {ESS, vv 0.05/0.3/2} x evaluation mode x d x zero-likelihood region x likelihood width factor {1, 0.1, 0.03}) x case seed x shift c "
     "in +-[1e-3,1e3] (log-uniform, both signs); run A uses logL, run B uses logL+c under the same seed. "
     "Non-trivial = >=3 annealing iterations and |c|>=1. distinct = case hash."
+    ' The *_full check draws a complete configuration with vlib.cfggen: every constructor option gets a generated value in every case (d, evaluation mode incl. one/two blobs, zero-likelihood region, narrow target, kernel, resampler, clustering, normalize, cluster_every, n_max_clusters, split_threshold, ess_ratio, ESS/volume-variation metric, n_particles incl. odd, n_steps/n_max_steps, periodic/reflective indices, pool kind, extra likelihood args/kwargs, random_state int/NumPy-int/None); the oracle is the same.'
 )
 ASSUMPTIONS = [
     "tolerances: beta 1e-12, particles 1e-12 (bit-identical expected), ESS 1e-9 relative, weights 1e-9, logz shift 1e-9*max(1,|c|)",
